@@ -7,7 +7,14 @@ verus! {
 
 //@include inc/c15_node_fns.rs
 
-proof fn canary_combine(a: NodeInfo, b: NodeInfo) requires node_wf(a), node_wf(b) ensures false {}
+// vacuity canary (must FAIL): node_wf is satisfiable and the assumed axioms / order lemmas are not contradictory
+proof fn canary_combine(a: NodeInfo, b: NodeInfo)
+    requires node_wf(a), node_wf(b), a.leaves@.len() > 0, b.leaves@.len() > 0
+    ensures false
+{
+    axiom_leaf_vec_len(a.leaves); axiom_leaf_vec_len(b.leaves);
+    lemma_pair_code(a.hash@, b.hash@); lemma_pair_comm(a.hash@, b.hash@); lemma_lex_irrefl(a.hash@);
+}
 
 } // verus!
 fn main() {}
